@@ -195,7 +195,10 @@ func (w *world) wtLoopback() *wtLoop {
 
 // wtDial opens a WebTransport session to the engine and sends the first frame
 // (the open packet that asks for a new session or names the session to upgrade).
-func (w *world) wtDial(first string) *wsClient {
+func (w *world) wtDial(first string) *wsClient { return w.wtDialRaw(first, nil) }
+
+// wtDialRaw: like wtDial; when raw is given, those bytes are written to the stream as they are instead of a first frame.
+func (w *world) wtDialRaw(first string, raw []byte) *wsClient {
 	l := w.wtLoopback()
 	c := &wsClient{servDone: make(chan struct{}), readDone: make(chan struct{})}
 	w.conns = append(w.conns, c)
@@ -216,7 +219,9 @@ func (w *world) wtDial(first string) *wsClient {
 	c.wtSess = sess
 	c.wtConn = ewt.NewConn(sess, str, false, 0, 0, nil, nil, nil)
 	go c.wtReadLoop()
-	if first != "" {
+	if raw != nil {
+		str.Write(raw)
+	} else if first != "" {
 		c.wtConn.WriteMessage(ewt.TextMessage, []byte(first))
 	}
 	idle()
@@ -309,6 +314,43 @@ func famSesWtq(t *testing.T, r *Rec) {
 			r.Op(l, outs[i])
 		}
 		monitorSession(r, g, outs)
+	}
+	// the first frame of a WebTransport connection is bounded like every other: one above the limit ends that
+	// connection and creates no session (monitor only: the model's WebTransport handshake has no frame size)
+	for _, lim := range []int{300, 1000} {
+		for _, how := range []string{"sent", "announced"} {
+			// "announced": only the header of a frame far above the limit arrives, then one byte: the server must not wait for the rest
+			q := toSesq([]string{fmt.Sprintf("ses cfg 25000 20000 60000 %d polling,websocket,webtransport 1 0 - 0 -", lim), fmt.Sprintf("ses wtbig %d %s", 4*lim, how), "ses obs"})
+			outs, ok := sesqStable(t, r, q)
+			if !ok {
+				continue
+			}
+			r.scenarios++
+			r.Cover(fmt.Sprintf("wtq/oversized-first-frame/%s/limit=%d", how, lim))
+			sessions, reg, ended := 0, "", false
+			for _, out := range outs {
+				if out == "-" || out == "ok" {
+					continue
+				}
+				o := parseObs(out)
+				sessions = max(sessions, len(o.states))
+				if o.reg != "" {
+					reg = o.reg
+				}
+				if _, ok := o.ended[0]; ok {
+					ended = true
+				}
+				for _, e := range o.events {
+					if e.name == "connection" {
+						sessions = max(sessions, 1)
+					}
+				}
+			}
+			if sessions > 0 || !strings.HasPrefix(reg, "-") || !ended {
+				r.Violate("C10", fmt.Sprintf("C10/wt-first-frame-not-limited/%s/limit=%d", how, lim),
+					fmt.Sprintf("a WebTransport connection whose first frame (%s) carries %d bytes under a limit of %d: sessions created %d, client table %q, connection ended by the server: %v (want none, empty, true)", how, 4*lim, lim, sessions, reg, ended), q)
+			}
+		}
 	}
 	// one pre-encoded frame handed to several sends (what a broadcast does): every write of it puts the same bytes on the wire
 	{
